@@ -176,6 +176,31 @@ def parse_assumptions(log):
     return blocks
 
 
+def fingerprints(funcs):
+    """normalised-AST hashes of the Go functions a hand model mirrors (T6)."""
+    if not funcs:
+        return {}
+    h = os.path.join(VERIF, "harness")
+    out = os.path.join(BUILD, "fingerprint")
+    with Lock("go"):
+        if not os.path.exists(out):
+            sh(["go", "build", "-o", out, "./cmd/fingerprint"], cwd=h, env=GOENV, timeout=600)
+    rc, txt = sh([out, REPO] + list(funcs))
+    res = {}
+    for line in txt.splitlines():
+        parts = line.split()
+        if len(parts) == 2:
+            res[parts[0]] = parts[1]
+    return res
+
+
+def recorded_fingerprints(pid):
+    p = os.path.join(VERIF, "props", "fingerprints.json")
+    if not os.path.exists(p):
+        return {}
+    return json.load(open(p)).get(pid, {})
+
+
 def load_known(pid):
     p = os.path.join(VERIF, "known_findings.json")
     if not os.path.exists(p):
@@ -200,6 +225,14 @@ class Run:
         self.result = None
         self.mismatch_count = 0
         self.traces = 0
+        # change-directed budget (DESIGN 1.3-C): a modelled function whose
+        # normalised AST differs from the recorded one multiplies the case budget
+        cur = fingerprints(self.spec.get("fingerprint_funcs", []))
+        rec = recorded_fingerprints(pid)
+        self.drift = sorted(k for k in cur if rec.get(k) and rec[k] != cur[k])
+        self.boost = int(self.spec.get("drift_boost", 5)) if self.drift else 1
+        if self.drift:
+            self.say("modelled functions changed since the model was written (budget x%d): %s" % (self.boost, ", ".join(self.drift)))
 
     def say(self, *a):
         msg = " ".join(str(x) for x in a)
@@ -292,7 +325,7 @@ class Run:
         """Runs the implementation on generated cases and the model on the same
         cases inside Coq; returns list of mismatching case indexes."""
         spec = self.spec
-        n = ncases or spec["cases"][self.tier]
+        n = ncases or spec["cases"][self.tier] * self.boost
         seed = self.seed if seed is None else seed
         shard = int(spec.get("shard", 1000))
         mism_total = []
@@ -383,6 +416,7 @@ class Run:
             "broken": self.broken,
             "known_findings_printed": self.known_lines,
             "partial": spec.get("partial", []),
+            "fingerprint_drift": self.drift,
             "modelled_functions": spec.get("modelled", []),
         }
         if extra:
